@@ -78,34 +78,70 @@ def obligations(prop):
         s = z3.String('s')
         used, unsupported = [], []
         covered = False
+        branches = []        # contexted branches (condition on the text before, language, condition on the text after)
         for i, rx in cands:
             try:
-                L = RL.translate(rx)
-                Lin = RL.translate(rx, eot_as='none')
+                br = RL.translate_ctx(rx)
             except RL.Unsupported as e:
                 unsupported.append((i, rx, str(e)))
                 # what an untranslated rule matches is unknown: the rules behind it may or may not be reached
                 break
-            used.append((i, rx, L, Lin))
-            v, _ = RL.decide_empty([z3.InRe(s, S), z3.Not(z3.InRe(s, L.re))])
-            if v == 'unsat':
-                covered = True
-                break
+            branches += br
+            if len(br) == 1 and br[0][0] is None and br[0][2] is None:
+                L = RL.translate(rx)
+                Lin = RL.translate(rx, eot_as='none')
+                used.append((i, rx, L, Lin))
+                v, _ = RL.decide_empty([z3.InRe(s, S), z3.Not(z3.InRe(s, L.re))])
+                if v == 'unsat':
+                    covered = True
+                    break
+            else:
+                used.append((i, rx, None, None))
         base = '%s/keywords.SQL_REGEX/region language, %s' % (prop, kind)
-        det = {'rules': [rx for _, rx, _, _ in used], 'untranslated': [(rx, why) for _, rx, why in unsupported]}
-        # ---- O1
+        det = {'rules': [rx for _, rx, _, _ in used], 'untranslated': [(rx, why) for _, rx, why in unsupported],
+               'contexts': 'the region stands alone, or directly behind / in front of one whitespace character or one of ( ) , ; ='}
+        # ---- O1 (in context: look-behind / look-ahead conditions of a rule are conditions on the neighbouring character)
         o = Obl(base + '/O1 every well-formed region is matched in full by its rule', FN, kind='smt', backend='z3-regex')
         if not used:
             o.status, o.detail = UNDECIDED, dict(det, reason='no translated rule for this region')
         else:
-            union = z3.Union(*[L.re for _, _, L, _ in used]) if len(used) > 1 else used[0][2].re
-            v, m = (('unsat', None) if covered else RL.decide_empty([z3.InRe(s, S), z3.Not(z3.InRe(s, union))]))
+            # the neighbouring characters are enumerated (nothing, every whitespace character, ( ) , ; =); contexts that
+            # enable the same branches share one query  S minus the union of the enabled branches' languages = empty
+            ctxs = [''] + [chr(c) for a, b in RL.category_ranges('space') for c in range(a, b + 1)] + list('(),;=')
+            v, m, l_, r_ = 'unsat', None, '', ''
+            if not covered:
+                if all(lb is None and la is None for lb, _, la in branches):
+                    groups = {frozenset(range(len(branches))): ('', '')}
+                else:
+                    okl = {c: frozenset(k for k, (lb, _, _) in enumerate(branches) if RL.ctx_holds(lb, c)) for c in ctxs}
+                    okr = {c: frozenset(k for k, (_, _, la) in enumerate(branches) if RL.ctx_holds(la, c)) for c in ctxs}
+                    groups = {}
+                    for cl in ctxs:
+                        for cr in ctxs:
+                            groups.setdefault(okl[cl] & okr[cr], (cl, cr))
+                for en, (cl, cr) in sorted(groups.items(), key=lambda kv: len(kv[0])):
+                    langs = [branches[k][1] for k in sorted(en)]
+                    cs = [z3.InRe(s, S)]
+                    if langs:
+                        cs.append(z3.Not(z3.InRe(s, z3.Union(*langs) if len(langs) > 1 else langs[0])))
+                    v1, m1 = RL.decide_empty(cs)
+                    if v1 == 'sat':
+                        v, m, l_, r_ = 'sat', m1, cl, cr
+                        break
+                    if v1 != 'unsat':
+                        v = 'unknown'
             if v == 'unsat':
                 o.status, o.detail = DISCHARGED, det
             elif v == 'sat':
                 text = _z3str(m, s)
-                toks = _lex(text)
-                bad = not (len(toks) == 1 and (toks[0][0] is typ if ident else toks[0][0] in typ))
+                toks = _lex(l_ + text + r_)
+                at, hit = 0, None
+                for tt, val in toks:
+                    if at == len(l_):
+                        hit = (tt, val)
+                    at += len(val)
+                bad = not (hit is not None and hit[1] == text and (hit[0] is typ if ident else hit[0] in typ))
+                text = l_ + text + r_
                 if bad and not unsupported:
                     o.status = FAILED
                     o.witness = {'input': text, 'failure': 'the well-formed %s %r is lexed as %r' % (kind, text, toks[:6]),
@@ -121,6 +157,10 @@ def obligations(prop):
         # ---- O2 / O3 per rule
         for i, rx, L, Lin in used:
             t1 = time.time()
+            if L is None:
+                out.append(Obl(base + '/rule %r has look-arounds (O2/O3 not stated)' % rx, FN, kind='structural',
+                               backend='structural', status=UNDECIDED, detail={'rule': rx}))
+                continue
             if L.lazy and not L.greedy or (L.lazy and L.greedy):
                 # (a rule without quantifiers matches texts of one length per alternative: treated like a lazy one)
                 o = Obl(base + '/O2 rule %r cannot stop before the region ends' % rx, FN, kind='smt', backend='z3-regex')
